@@ -83,9 +83,13 @@ class World:
         p = SimProcess()
         info = {"proc": p, "ver": self.cur, "store": dict(self.store_spec), "mutations": [], "inst": self.ninst}
         mods = [ir.modname(prog, m) for m in prog["mods"]]
+        loc = self.case.get("location", "package")
+        main = ir.modname(prog, prog["mods"][0])
         p.call({"cmd": "init", "srcdir": self.srcdir(self.cur), "accept": ir.accepted_names(prog),
                 "store": self.full_store_spec(info["store"]), "modules": mods,
-                "options": self.case.get("options", []), "cwd": self.case.get("cwd")})
+                "options": self.case.get("options", []), "cwd": self.case.get("cwd"), "location": loc,
+                "main_module": main if loc != "package" else None,
+                "main_file": os.path.join(self.srcdir(self.cur), *(prog["pkg"] + [prog["mods"][0] + ".py"]))})
         self.procs[pid] = info
         return info
 
